@@ -1913,6 +1913,45 @@ fn metabort(rep: &mut Report) {
     rep.s("metabort", "not applicable: this build has no metrics".into());
 }
 
+// ------------------------------------------------------------------------------------------------ two failures at the same moment
+/// two deliveries fail at the same time on two threads, under a subscriber that takes 8-40 ms to record an event:
+/// each failure is one dead letter, neither is swallowed because the other is being recorded
+fn dlrace(rep: &mut Report) {
+    harness::log::install();
+    let rt = tokio::runtime::Builder::new_multi_thread().worker_threads(2).enable_time().build().unwrap();
+    let mut rounds = 0u64;
+    for round in 0..6u32 {
+        rounds += 1;
+        note(format!("dlrace: round {round}"));
+        let log = Arc::new(Mutex::new(vec![]));
+        let (dead, jh) = rt.block_on(async { spawn_with_mailbox_capacity::<B>((log.clone(), 0), 4) });
+        let _ = dead.kill();
+        rt.block_on(async { let _ = tokio::time::timeout(Duration::from_secs(5), jh).await; });
+        harness::log::SLOW_LOG_ALWAYS.store(true, SeqCst);
+        harness::log::SLOW_LOG_MS.store(40, SeqCst);
+        let before = harness::log::DEAD_LETTER_EVENTS.load(SeqCst);
+        let bar = Arc::new(std::sync::Barrier::new(2));
+        let mut ths = vec![];
+        for t in 0..2u32 {
+            let d = dead.clone();
+            let b = bar.clone();
+            ths.push(std::thread::spawn(move || {
+                b.wait();
+                if (round + t) % 2 == 0 { d.blocking_tell(W(90 + t), None).is_err() } else { d.blocking_ask(W(90 + t), None).is_err() }
+            }));
+        }
+        let failed: Vec<bool> = ths.into_iter().map(|h| h.join().unwrap_or(false)).collect();
+        let letters = harness::log::DEAD_LETTER_EVENTS.load(SeqCst) - before;
+        harness::log::SLOW_LOG_MS.store(0, SeqCst);
+        harness::log::SLOW_LOG_ALWAYS.store(false, SeqCst);
+        if failed != vec![true, true] || letters != 2 {
+            rep.v("C13", format!("dlrace (round {round}): two sends to an ended actor, made at the same moment from two threads, under a tracing subscriber that takes 8-40 ms per event: failed = {failed:?}, dead letters recorded = {letters} (each failed delivery records exactly one dead letter; two failures, two letters)"));
+            break;
+        }
+    }
+    rep.s("dlrace", format!("rounds={rounds}"));
+}
+
 // ------------------------------------------------------------------------------------------------ what happened earlier does not matter
 /// every send is judged by the state of the mailbox when it is made, not by what earlier sends met: after a timed tell
 /// that gave up on a full mailbox and a stop() that was abandoned while waiting for a slot, a plain tell into the
@@ -3664,6 +3703,7 @@ fn main() {
             "slowlog" => ("C14 C15", 900),
             "stale" => ("C01 C09 C10 C07", 240),
             "killdrop" => ("C06", 600),
+            "dlrace" => ("C13", 120),
             "metabort" => ("C20", 120),
             "erasedblk" => ("C16 C17", 600),
             "blocking" => ("C17 C10 C03", 720),
@@ -3700,6 +3740,7 @@ fn main() {
                     "slowlog" => slowlog(secs, &mut r),
                     "stale" => stale(&mut r),
                     "killdrop" => killdrop(secs, &mut r),
+                    "dlrace" => dlrace(&mut r),
                     "metabort" => metabort(&mut r),
                     "erasedblk" => erasedblk(&mut r),
                     "blocking" => blocking(&mut r),
